@@ -460,7 +460,14 @@ def check_c17(prop, tier, seed):
                      ("islice", lambda: L_.list(L_.islice(big, 5000, None))), ("sorted", lambda: L_.sorted(list(range(70000)))),
                      ("chain", lambda: L_.list(L_.chain(big, big))), ("reduce", lambda: L_.reduce(max, big)),
                      ("tee", lambda: L_.list(L_.tee(big, n=1)[0])), ("enumerate", lambda: L_.list(L_.enumerate(big))),
-                     ("any_iter", lambda: L_.list(L_.any_iter(big)))):
+                     ("any_iter", lambda: L_.list(L_.any_iter(big))),
+                     ("cycle", lambda: L_.list(L_.islice(L_.cycle([1, 2, 3]), 5000))), ("accumulate", lambda: L_.list(L_.accumulate(big))),
+                     ("batched", lambda: L_.list(L_.batched(big, 3))), ("pairwise", lambda: L_.list(L_.pairwise(big))),
+                     ("takewhile", lambda: L_.list(L_.takewhile(lambda x: True, big))), ("dropwhile", lambda: L_.list(L_.dropwhile(lambda x: x < 5000, big))),
+                     ("compress", lambda: L_.list(L_.compress(big, big))), ("starmap", lambda: L_.list(L_.starmap(max, zip(big, big)))),
+                     ("min", lambda: L_.min(big)), ("dict", lambda: L_.dict(zip(big, big))), ("set", lambda: L_.set(big)),
+                     ("nlargest", lambda: L_.nlargest(big, 2000)), ("merge", lambda: L_.list(L_.merge(big, big))),
+                     ("groupby", lambda: L_.list(L_.map(lambda kg: kg[0], L_.groupby(big, lambda x: x // 10))))):
         acct = Accounting()
         t = Task(mk(), acct)
         r = t.step()
@@ -517,6 +524,30 @@ def check_c17(prop, tier, seed):
         if len(_LOOP_CALLS) != before or acct.foreign:
             v.violation(f"C17/{name}/dropped-iterator-looks-for-an-event-loop",
                         {"engine": "scenario", "observed": {"loop_calls": _LOOP_CALLS[before:][:3], "foreign": [repr(x)[:60] for x in acct.foreign[:2]]}})
+    # a borrowed handle closed while another task is suspended inside the source through it: whatever the answer
+    # (Python refuses to close a running generator), the close does not wait on something of the library's own
+    from .instruments import ClsSource  # noqa: PLC0415
+    for name, mk in (("borrow", lambda src: L_.borrow(src)),):
+        rec_ = Recorder()
+        rec_.susp = 1
+        src = ClsSource(rec_, 1, [Item(1, 1, 1), Item(1, 2, 1)])
+        h = mk(src)
+        t1 = Task(h.__anext__(), rec_.acct)
+        r1 = t1.step()
+        t2 = Task(h.aclose(), rec_.acct)
+        r2 = t2.step()
+        runs += 1
+        if r1[0] == "token" and r2[0] == "token" and not isinstance(r2[1], type(r1[1])):
+            v.violation(f"C17/{name}/close-of-a-busy-handle-waits-without-user-awaitable", {"engine": "scenario", "observed": repr(r2)[:120]})
+        elif not rec_.acct.ok() and rec_.acct.foreign:
+            v.violation(f"C17/{name}/close-of-a-busy-handle-waits-without-user-awaitable", {"engine": "scenario", "observed": rec_.acct.describe()})
+        if r2[0] == "token":
+            try:
+                t2.throw(Cancelled("stop"))
+            except BaseException:  # noqa: BLE001
+                pass
+        while not t1.done:
+            t1.step()
     # importing and using the library needs no running loop and creates none
     code = ("import asyncio, asyncio.events as ev, sys; sys.path.insert(0, %r); import asyncstdlib as a\n"
             "assert ev._get_running_loop() is None\n"
@@ -887,6 +918,8 @@ VARIANTS = {
     "islice#open-ended-big-step": ("islice", lambda L, S: L.islice(S[0], 0, None, 40)),
     "islice#big-step": ("islice", lambda L, S: L.islice(S[0], 0, 10 ** 6, 40)),
     "batched#threes": ("batched", lambda L, S: L.batched(S[0], 3)),
+    "nlargest#ascending": ("nlargest", lambda L, S: L.nlargest(S[0], 5, key=lambda x: x.p)),
+    "nsmallest#descending": ("nsmallest", lambda L, S: L.nsmallest(S[0], 5, key=lambda x: -x.p)),
 }
 
 
